@@ -252,7 +252,13 @@ def main(argv=None):
         if "--tier" in argv:
             tier = argv[argv.index("--tier") + 1]
         seed = int(os.environ.get("VERIF_SEED", "0") or 0)
-        return check(prop, tier, seed)
+        try:
+            return check(prop, tier, seed)
+        except Exception as e:  # harness / stub failure: never a verdict
+            import traceback
+            traceback.print_exc()
+            print(f"INCONCLUSIVE property={prop} harness failure: {type(e).__name__}: {str(e)[:300]}")
+            return 2
     if cmd == "replay":
         return replay_file(argv.pop(0))
     if cmd == "cells":
